@@ -130,7 +130,9 @@ def _harvest(ir, regions):
     def do_type(t, fname):
         at_t = name_def(t.name, fname)
         for p in t.runtime_parameter:
-            name_def(p.name, fname)
+            at_p = name_def(p.name, fname)
+            if at_p and p.has_field("physical_type_alias"):
+                _walk_refs(p.physical_type_alias, at_p, refs, ir_data, None)
         if t.has_field("attribute"):
             for a in t.attribute:
                 if at_t:
